@@ -258,7 +258,10 @@ func (d *Decoder) LoadParityData() error {
 	}
 
 	d.shardByteCount = shardByteCount
-	d.parityData = parityData[:maxI+1]
+	if len(parityData) > 0 {
+		parityData = parityData[:maxI+1]
+	}
+	d.parityData = parityData
 	return nil
 }
 
